@@ -299,7 +299,27 @@ fn gen_ctrl_case(rng: &mut Rng, idx: u64, _run: &Run) -> Vec<String> {
     ops
 }
 
-fn gen_loop_case(rng: &mut Rng, _idx: u64, _run: &Run) -> Vec<String> {
+fn gen_loop_case(rng: &mut Rng, idx: u64, _run: &Run) -> Vec<String> {
+    if idx == 0 {
+        // witness of seeded change C37-g: source 1 is dropped while relay handles are alive; afterwards only source 2
+        // may be used
+        let one = f64hex(1.0);
+        let sn = |l: char| cand_str(0.0, 4.0 * G * G, G, false, l);
+        return vec![
+            format!("cfg min=1 ws={} wd={} mu={}", one, one, f64hex(0.25)),
+            "add id=1".into(),
+            "add id=2".into(),
+            "send id=1 usable=1".into(),
+            "send id=2 usable=1".into(),
+            format!("send id=1 snap={}", sn('n')),
+            format!("send id=2 snap={}", sn('n')),
+            "run".into(),
+            "send id=1 drop-held".into(),
+            "run".into(),
+            format!("send id=2 snap={}", sn('5')),
+            "run".into(),
+        ];
+    }
     let mut ops = vec![gen_cfg(rng)];
     let n_ids = rng.usize(2, 6) as u64;
     let n = rng.usize(8, 40);
@@ -315,7 +335,8 @@ fn gen_loop_case(rng: &mut Rng, _idx: u64, _run: &Run) -> Vec<String> {
         } else if r < 30 {
             ops.push(format!("send id={} usable={}", id, if rng.chance(3, 4) { 1 } else { 0 }));
         } else if r < 37 {
-            ops.push(format!("send id={} drop", id));
+            // half of the drops happen while relay handles are alive (as in `run`'s broadcast loop)
+            ops.push(format!("send id={} {}", id, if rng.chance(1, 2) { "drop" } else { "drop-held" }));
             live.retain(|x| *x != id);
         } else if r < 75 {
             ops.push(format!("send id={} snap={}", id, gen_snap(rng, 0.0, true)));
@@ -549,6 +570,9 @@ fn exec_loop_case(ops: &[String], run: &mut Run) {
         let mut pending: Vec<(u64, String)> = vec![];
         let mut quality: BTreeMap<u64, (bool, bool)> = BTreeMap::new();
         let mut expected_used: Vec<u64> = vec![];
+        // ids whose REAL source-side wrapper was dropped: in this loop turn / in earlier turns (until re-added)
+        let mut dropped_now: Vec<u64> = vec![];
+        let mut dropped_done: Vec<u64> = vec![];
         let mut key = String::new();
         let mut interesting = false;
         for op in ops {
@@ -573,6 +597,7 @@ fn exec_loop_case(ops: &[String], run: &mut Run) {
                     sources.insert(id, wr.add_source(ClockId(id), SourceConfig::default()));
                     reference.insert(id, (false, false));
                     quality.remove(&id);
+                    dropped_done.retain(|x| *x != id);
                     key.push('a');
                     run.end_op("ok");
                 }
@@ -588,13 +613,26 @@ fn exec_loop_case(ops: &[String], run: &mut Run) {
                     key.push('u');
                     run.end_op("ok");
                 }
-                ("send", Some("drop")) => {
+                ("send", Some(what @ ("drop" | "drop-held"))) => {
+                    // "drop-held": the source-side wrapper goes away while the system side holds upgraded handles,
+                    // obtained exactly as `run` obtains them for a relay (same field, same call); they are released
+                    // right afterwards
+                    let held: Vec<_> = if what == "drop-held" {
+                        wr.twoway_sources.lock().unwrap().iter().filter_map(std::sync::Weak::upgrade).collect()
+                    } else {
+                        vec![]
+                    };
                     match sources.remove(&id) {
-                        Some(s) => drop(s), // the real Drop impl sends `Dropped`
+                        Some(s) => {
+                            drop(s); // the real Drop impl must send `Dropped`
+                            dropped_now.push(id);
+                            run.hit(if held.is_empty() { "drop-real" } else { "drop-real-while-held" });
+                        }
                         None => {
                             let _ = tx.send((ClockId(id), WrapperMessage::Dropped));
                         }
                     }
+                    drop(held);
                     pending.push((id, "d".into()));
                     key.push('d');
                     run.end_op("ok");
@@ -612,6 +650,37 @@ fn exec_loop_case(ops: &[String], run: &mut Run) {
                     }
                     let calls = clock.take();
                     let (snapshot, used) = wr.synchronization_state();
+                    // c37_drop_removes: once the source-side wrapper is dropped and the system side has handled its queue,
+                    // the controller no longer knows the source, and no later update uses it
+                    {
+                        let inner = wr.inner.lock().unwrap();
+                        for d in dropped_now.iter().chain(dropped_done.iter()) {
+                            if inner.sources.contains_key(&ClockId(*d)) && !sources.contains_key(d) {
+                                run.oracle_fail(
+                                    "c37_drop_removes",
+                                    &format!("id={} where=registered", d),
+                                    &format!("source {} was dropped and the queue handled, but the controller still has it registered (snapshot: {})", d,
+                                        inner.sources.get(&ClockId(*d)).map_or(false, |e| e.0.is_some())),
+                                );
+                            }
+                        }
+                    }
+                    if calls.iter().any(|c| c == "err") {
+                        for d in &dropped_done {
+                            if used.iter().any(|u| u.0 == *d) && !sources.contains_key(d) {
+                                run.oracle_fail(
+                                    "c37_drop_removes",
+                                    &format!("id={} where=used", d),
+                                    &format!("an update after the removal of source {} still uses it: used {:?}", d, used),
+                                );
+                            }
+                        }
+                    }
+                    for d in dropped_now.drain(..) {
+                        if !sources.contains_key(&d) && !dropped_done.contains(&d) {
+                            dropped_done.push(d);
+                        }
+                    }
                     // oracle: replay the property's bookkeeping over the handled messages in send order and compute,
                     // from it alone, the set of sources the controller must report as used: at every handled
                     // measurement of a registered source the candidates are registered ∧ last-usable ∧ has-snapshot;
